@@ -115,6 +115,7 @@ SMT_ENTRIES = {
 }
 FOG_ENTRIES = {
     "Nibbles": (BAD_NIBBLES, NIB_ERR),
+    "Nibbles.add": (BAD_NIBBLES, NIB_ERR),
     "explore.prefix": (BAD_NIBBLES, NIB_ERR), "explore.segment": (BAD_NIBBLES, NIB_ERR),
     "mark_all_complete.prefix": (BAD_NIBBLES, NIB_ERR),
     "nearest_unknown.key": (BAD_NIBBLES, NIB_ERR), "nearest_right.key": (BAD_NIBBLES, NIB_ERR),
@@ -425,6 +426,7 @@ def _run_fog(case, info):
     E = (Exception,)
     calls = {
         "Nibbles": lambda: Nibbles(bad),
+        "Nibbles.add": lambda: Nibbles((1, 2)) + bad,
         "explore.prefix": lambda: fog.explore(bad, [(1,)]),
         "explore.segment": lambda: fog.explore((2, 3), [(4,), bad]),
         "mark_all_complete.prefix": lambda: fog.mark_all_complete([(2, 3), bad]),
